@@ -1,7 +1,7 @@
 import OdakProofs.Lemmas.Kernels
 import OdakProofs.Lemmas.PropagateLemmas
 import OdakModel.Propagator
-import OdakProofs.Lemmas.GenPipelines
+import OdakProofs.Lemmas.GenPropagator
 
 /-! # C06 – the propagator forward model is history-independent and matches its documented model -/
 namespace Odak
